@@ -394,3 +394,36 @@ MUTANTS += [
     dict(name="c17_query_wrap_dropped", prop="C17", file=SKD,
          old="            X, self._grids, self._bandwidth_inv, self.cell, squared=True\n        )", new="            X, self._grids, self._bandwidth_inv, None, squared=True\n        )"),
 ]
+
+MUTANTS += [
+    # ---------------------------------------------------------------- C09
+    dict(name="revert_fix_quickshift_inplace", prop="C09", file=QS,
+         old="            self.dist_cutoff_sq = self.dist_cutoff_sq * self.scale**2", new="            self.dist_cutoff_sq *= self.scale**2"),
+    dict(name="revert_fix_kde_weights_inplace", prop="C09", file=SKD,
+         old="        self.weights = self.weights / np.sum(self.weights)", new="        self.weights /= np.sum(self.weights)"),
+    dict(name="revert_fix_stale_y_selected", prop="C09", file=SEL,
+         old="        elif hasattr(self, \"y_selected_\"):\n            # a previous fit with targets must not leak into a fit without\n            del self.y_selected_\n", new=""),
+    dict(name="revert_fix_kernelnormalizer_reset", prop="C09", file=PRE,
+         old="        K = self._validate_data(K, copy=True, dtype=FLOAT_DTYPES)\n\n        if sample_weight is not None:", new="        K = self._validate_data(K, copy=True, dtype=FLOAT_DTYPES, reset=False)\n\n        if sample_weight is not None:"),
+    dict(name="c09_cur_no_copy", prop="C09", file=SEL,
+         old="        self.X_current_ = as_float_array(X.copy())", new="        self.X_current_ = as_float_array(X, copy=False)"),
+    dict(name="c09_kernelnormalizer_fit_no_copy", prop="C09", file=PRE,
+         old="        K = self._validate_data(K, copy=True, dtype=FLOAT_DTYPES)\n\n        if sample_weight is not None:", new="        K = self._validate_data(K, copy=False, dtype=FLOAT_DTYPES)\n\n        if sample_weight is not None:"),
+    dict(name="c09_pcovr_precomputed_no_copy", prop="C09", file=PCV,
+         old="            Yhat = Y.copy().reshape(X.shape[0], -1)", new="            Yhat = Y.reshape(X.shape[0], -1)\n            Yhat -= 0.0"),
+    dict(name="c09_periodic_inplace_wrap", prop="C09", file=PW,
+         old="    X, Y = np.array(X).astype(float), np.array(Y).astype(float)\n    XY = np.concatenate([x - Y for x in X])", new="    X, Y = np.asarray(X), np.asarray(Y)\n    X -= np.round(X / cell) * cell\n    XY = np.concatenate([x - Y for x in X])"),
+    dict(name="c09_scaler_mean_accumulates", prop="C09", file=PRE,
+         old="            self.mean_ = np.average(X, weights=sample_weight, axis=0)\n        else:", new="            self.mean_ = np.average(X, weights=sample_weight, axis=0) + (0.01 * self.mean_ if hasattr(self, \"mean_\") and np.shape(self.mean_) == (X.shape[1],) else 0.0)\n        else:"),
+    dict(name="c09_fit_mutates_param", prop="C09", file=RDG,
+         old="        X, y = self._validate_data(X, y, y_numeric=True, multi_output=True)\n        self.n_samples_in_", new="        X, y = self._validate_data(X, y, y_numeric=True, multi_output=True)\n        self.alphas = np.sort(self.alphas)[::-1]\n        self.n_samples_in_"),
+    dict(name="c09_rigidity_scales_inplace", prop="C09", file=PRG, count=1,
+         old="    for X_i in X_train:\n        X_struc.append(np.mean(X_i / sfactor, axis=0))", new="    for X_i in X_train:\n        X_i /= sfactor\n        X_struc.append(np.mean(X_i, axis=0))"),
+    dict(name="c09_dch_sorts_low_dim_idx", prop="C09", file=SSB,
+         old="        self.high_dim_idx_ = np.setdiff1d(np.arange(X.shape[1]), self.low_dim_idx)", new="        self.low_dim_idx.sort()\n        self.high_dim_idx_ = np.setdiff1d(np.arange(X.shape[1]), self.low_dim_idx)"),
+    dict(name="c09_orthogonalizer_copy_ignored", prop="C09", file=ORT,
+         old="    if copy:\n        xnew = x1.copy()\n    else:\n        xnew = x1", new="    xnew = x1 if x1.flags.writeable and x1.flags.c_contiguous and x2 is not None else x1.copy()"),
+    dict(name="c09_selector_stale_state_on_refit", prop="C09", file=SEL,
+         old="        self.norms_ = (X**2).sum(axis=abs(self._axis - 1))\n        self.hausdorff_ = np.full(X.shape[self._axis], np.inf)\n        self.hausdorff_at_select_ = np.full(X.shape[self._axis], np.inf)\n\n        if isinstance(self.initialize, (np.ndarray, list)):",
+         new="        self.norms_ = (X**2).sum(axis=abs(self._axis - 1))\n        self.hausdorff_ = np.full(X.shape[self._axis], np.inf)\n        if not hasattr(self, 'hausdorff_at_select_') or len(self.hausdorff_at_select_) != X.shape[self._axis]:\n            self.hausdorff_at_select_ = np.full(X.shape[self._axis], np.inf)\n\n        if isinstance(self.initialize, (np.ndarray, list)):"),
+]
